@@ -439,7 +439,7 @@ type Profile struct {
 var allKinds = []string{"send", "multisend", "sell", "sellall", "buy", "createcoin", "recreatecoin", "createtoken", "recreatetoken",
 	"editcoinowner", "mint", "burn", "declare", "delegate", "unbond", "move", "seton", "setoff", "editcand", "editcandpk", "editcandcomm",
 	"createmultisig", "editmultisig", "sethalt", "voteupdate", "votecomm", "createpool", "addliq", "remliq", "sellpool", "buypool",
-	"sellallpool", "addorder", "remorder", "lockstake", "lock", "redeem", "pricevote", "unknowntype", "sellusdt", "sellbip", "dustorder", "fillorder", "buyheadroom", "remdust"}
+	"sellallpool", "addorder", "remorder", "lockstake", "lock", "redeem", "pricevote", "unknowntype", "sellusdt", "sellbip", "dustorder", "fillorder", "buyheadroom", "remdust", "sellheadroom"}
 
 // GeneralProfile exercises every transaction type with modest fault rates.
 func GeneralProfile() Profile {
@@ -454,6 +454,7 @@ func GeneralProfile() Profile {
 	w["dustorder"], w["fillorder"] = 2, 4
 	w["buyheadroom"] = 2
 	w["remdust"] = 1
+	w["sellheadroom"] = 2
 	return Profile{W: w, TxMin: 0, TxMax: 8, PAbsent: 0.03, PStreak: 0.02, PEvidence: 0.02, PBadNonce: 0.04, PBadSig: 0.03, PMultisig: 0.05,
 		PDup: 0.04, PGarbage: 0.02, PZeroGP: 0.02, PGasCustom: 0.2, PPayload: 0.1, PClockJump: 0.03, PWrongChain: 0.01, PBigAmt: 0.12}
 }
@@ -577,6 +578,14 @@ func GenOp(r *rand.Rand, p *Profile, nAcct int) Op {
 			op.V[1] = Amt{Mode: 1, M: 1000} // max sell = whole balance
 		}
 		op.V[0] = Amt{Mode: 1, M: uint64(1 + r.Intn(50))}
+		switch r.Intn(30) {
+		case 0:
+			op.V[0] = Amt{Mode: 1, M: 1000} // exactly the whole reserve of the coin bought
+		case 1:
+			op.V[0] = Amt{Mode: 4, M: 1} // one unit more than the reserve
+		case 2:
+			op.V[0] = Amt{Mode: 5, M: 1} // one unit less
+		}
 	case "addorder":
 		op.V[1] = Amt{Mode: 1, M: uint64(700 + r.Intn(800))}
 		if r.Intn(5) < 2 {
@@ -731,6 +740,17 @@ func GenBlocks(r *rand.Rand, p *Profile, nBlocks, nAcct, nVal int, period uint64
 				}
 				tw.X[0], tw.X[5], tw.X[6] = 999999, 0, 0
 				tw.NM, tw.SM, tw.MS, tw.ZGP, tw.CH = 0, 0, nil, false, 0
+				bo.Ops = append(bo.Ops, tw)
+			}
+			if op.K == "fillorder" && r.Intn(3) == 0 {
+				// the same order is partially filled a second time in the same block
+				tw := op
+				tw.X = append([]int64(nil), op.X...)
+				tw.V = append([]Amt(nil), op.V...)
+				tw.A = r.Intn(nAcct)
+				tw.V[0] = Amt{Mode: 1, M: uint64(100 + r.Intn(500))}
+				tw.NM, tw.SM, tw.MS, tw.ZGP, tw.CH = 0, 0, nil, false, 0
+				bo.Ops[len(bo.Ops)-1].V[0] = Amt{Mode: 1, M: uint64(100 + r.Intn(400))}
 				bo.Ops = append(bo.Ops, tw)
 			}
 			if op.K == "fillorder" && r.Intn(4) == 0 {
